@@ -61,7 +61,8 @@ Record cinv (k : cfg) (x : conn) : Prop := {
   ci_sock : sock x = false -> pre_exit (ph x) = true -> sd_via x <> ViaNone;
   ci_lost : lost x = 0;
   ci_arg : forall n, acc_arg x = Some n -> n = (live_at_cb x + 1)%Z;
-  ci_acc : ph x = PAccepted -> sock x = true /\ sd_via x = ViaNone
+  ci_acc : ph x = PAccepted -> sock x = true /\ sd_via x = ViaNone;
+  ci_handconv : cst x = CHandling -> handling_ph (ph x) = true \/ ph x = PLeaving
 }.
 
 Definition sd_busy (p : sdpc) : bool :=
@@ -93,7 +94,7 @@ Ltac crec x := destruct x as [xph xcst xsock xinmap xresp xcc xpan xpend xcb xac
 Ltac cinv_tac :=
   match goal with
   | H : cinv _ ?x |- cinv _ _ =>
-      destruct H as [H1 H2 H3 H4 H5 H6 H7 H8 H9 H10 H11]; crec x; unfold via_set in *; cbn in *; subst;
+      destruct H as [H1 H2 H3 H4 H5 H6 H7 H8 H9 H10 H11 H12]; crec x; unfold via_set in *; cbn in *; subst;
       constructor; cbn in *; intros;
       try match goal with E : on_close ?k = _ |- context [on_close ?k] => rewrite E end;
       repeat match goal with
@@ -213,7 +214,7 @@ Proof.
     + destruct ok; cbn; assumption.
     + destruct ok; t_count Hg.
     + destruct ok; cbn; (apply Forall_upd; [exact Hf|]); pose proof (Forall_nthe _ _ _ _ Hf Hg) as Hx;
-        (destruct Hx as [H1 H2 H3 H4 H5 H6 H7 H8 H9 H10 H11]; crec x; cbn in *; constructor; cbn; auto;
+        (destruct Hx as [H1 H2 H3 H4 H5 H6 H7 H8 H9 H10 H11 H12]; crec x; cbn in *; constructor; cbn; auto;
          intros n Hn'; injection Hn' as <-; rewrite Hn; reflexivity).
     + destruct ok; cbn; congruence.
     + destruct ok; t_closing Hcl Hg.
@@ -353,7 +354,7 @@ Qed.
 Theorem rejected_closed k s c x : reach GuardNow k s -> get s c = Some x -> ph x = PRejected ->
   sock x = false /\ inmap x = false /\ close_cb x = 0.
 Proof.
-  intros R G P. pose proof (reach_get_cinv _ _ _ _ R G) as [H1 H2 H3 H4 H5 H6 H7 H8 H9 H10 H11].
+  intros R G P. pose proof (reach_get_cinv _ _ _ _ R G) as [H1 H2 H3 H4 H5 H6 H7 H8 H9 H10 H11 H12].
   split; [apply H5; left; exact P|]. split.
   - destruct (inmap x) eqn:E; [|reflexivity]. specialize (H2 eq_refl). rewrite P in H2. discriminate.
   - rewrite H1, P. reflexivity.
@@ -365,7 +366,7 @@ Qed.
 Theorem dropped_closed k s c x : reach GuardNow k s -> get s c = Some x -> ph x = PDropped ->
   sock x = false /\ inmap x = false /\ close_cb x = (if on_close k then 1 else 0).
 Proof.
-  intros R G P. pose proof (reach_get_cinv _ _ _ _ R G) as [H1 H2 H3 H4 H5 H6 H7 H8 H9 H10 H11].
+  intros R G P. pose proof (reach_get_cinv _ _ _ _ R G) as [H1 H2 H3 H4 H5 H6 H7 H8 H9 H10 H11 H12].
   split; [apply H5; right; right; exact P|]. split.
   - destruct (inmap x) eqn:E; [|reflexivity]. specialize (H2 eq_refl). rewrite P in H2. discriminate.
   - rewrite H1, P. reflexivity.
@@ -912,7 +913,7 @@ Theorem replies_complete k s c x : reach GuardNow k s -> get s c = Some x ->
   (sd_via x <> ViaNone -> cst x = CClosed /\ owed x = [] /\ handling_ph (ph x) = false) /\
   (cst x = CIdle -> owed x = []) /\ (handling_ph (ph x) = true -> cst x = CHandling) /\ (owed x <> [] -> cst x = CHandling).
 Proof.
-  intros R G. pose proof (reach_get_cinv _ _ _ _ R G) as [H1 H2 H3 H4 H5 H6 H7 H8 H9 H10 H11].
+  intros R G. pose proof (reach_get_cinv _ _ _ _ R G) as [H1 H2 H3 H4 H5 H6 H7 H8 H9 H10 H11 H12].
   assert (Ho : owed x <> [] -> handling_ph (ph x) = true /\ pre_exit (ph x) = true).
   { intros A. destruct (H4 A) as [->|[-> _]]; split; reflexivity. }
   assert (Hd : forall l : list nat, l = [] \/ l <> []) by (intros [|]; [left; reflexivity|right; discriminate]).
@@ -1333,3 +1334,341 @@ Lemma cancel_example :
             cancelled s = true /\ lis_open s = false /\
             run GuardNow cfg_all s [LRejectClose 0; LServeReturn EClosed] <> None.
 Proof. eexists. split; [vm_compute; reflexivity|]. repeat split; try reflexivity. vm_compute. discriminate. Qed.
+
+(* ---------- Shutdown's to-do list only holds members of the map ---------- *)
+Definition tin (s : state) (t : list nat) : Prop := forall c, In c t -> exists x, get s c = Some x /\ inmap x = true.
+Definition tinv (s : state) : Prop :=
+  match sd s with
+  | SdPass t _ => tin s t
+  | SdFailed c t _ | SdClosing c t _ => tin s t /\ ~ In c t
+  | _ => True
+  end.
+
+Lemma inmap_ids_sound cs : forall i c, In c (inmap_ids cs i) -> exists x, nth_error cs (c - i) = Some x /\ inmap x = true /\ i <= c.
+Proof.
+  induction cs as [|h t IH]; intros i c H; cbn in H; [contradiction|].
+  apply in_app_or in H as [H|H].
+  - destruct (inmap h) eqn:E; [|contradiction]. destruct H as [<-|[]]. exists h. rewrite Nat.sub_diag. cbn. auto.
+  - destruct (IH _ _ H) as [x [A [B C]]]. exists x. replace (c - i) with (S (c - S i)) by lia. cbn. split; [exact A|split; [exact B|lia]].
+Qed.
+Lemma tin_ids s : tin s (inmap_ids (conns s) 0).
+Proof.
+  intros c H. destruct (inmap_ids_sound _ _ _ H) as [x [A [B _]]]. rewrite Nat.sub_0_r in A. exists x. split; [exact A|exact B].
+Qed.
+Lemma remove_nat_spec c d t : In d (remove_nat c t) -> d <> c /\ In d t.
+Proof.
+  induction t as [|h t IH]; cbn; [tauto|]. destruct (Nat.eqb c h) eqn:E.
+  - intros H. destruct (IH H) as [A B]. auto.
+  - intros [<-|H]; [split; [apply Nat.eqb_neq in E; congruence|left; reflexivity]|destruct (IH H) as [A B]; auto].
+Qed.
+Lemma mem_nat_in c t : In c t -> mem_nat c t = true.
+Proof.
+  induction t as [|h t IH]; cbn; [tauto|]. intros [->|H]; [rewrite Nat.eqb_refl; reflexivity|rewrite (IH H); apply orb_true_r].
+Qed.
+
+(* conn updates that keep map membership keep [tin] *)
+Ltac t_tin Ht Hm Hg :=
+  unfold tinv, tin in *; cbn;
+  match goal with |- context [sd ?s] => destruct (sd s) eqn:Esd0 end; auto;
+  try (exfalso; cbn in Hm; congruence);
+  try (destruct Ht as [Ht Hni]; split; [|exact Hni]);
+  intros d Hd; destruct (Ht d Hd) as [x0 [G0 I0]];
+  match type of Hg with get ?s ?c = Some ?x =>
+    destruct (Nat.eq_dec c d) as [->|Hne];
+    [ rewrite G0 in Hg; injection Hg as <-; eexists; split; [unfold get, put in *; cbn; eapply nth_upd_same; eassumption|];
+      crec x0; unfold via_set in *; cbn in *;
+      repeat match goal with |- context [match ?v with ViaNone => _ | _ => _ end] => destruct v; cbn in * end;
+      congruence
+    | exists x0; split; [unfold get, put in *; cbn; rewrite nth_upd_other by assumption; assumption|assumption] ]
+  end.
+Ltac t_tsame Ht := unfold tinv, tin, get in *; cbn; exact Ht.
+
+Lemma tinv_step k s l s' : inv k s -> tinv s -> step GuardNow k s l = Some s' -> tinv s'.
+Proof.
+  intros [Hc Hn Hf Hm Hcl Hfl Hsp Hspd] Ht H. unf H. rewrite Hc in H.
+  destruct l.
+  - brk H; injection H as <-; t_tsame Ht.
+  - brk H; injection H as <-; t_tsame Ht.
+  - destruct (sp s) eqn:Esp; try discriminate.
+    destruct (lis_open s && Nat.eqb c (length (conns s))) eqn:Heqb; try discriminate. injection H as <-.
+    assert (A : forall t, tin s t -> tin (s_conns (conns s ++ [new_conn]) s) t).
+    { intros t C d Hd. destruct (C d Hd) as [x [G I]]. exists x. split; [apply get_app_old; exact G|exact I]. }
+    unfold tinv in *. destruct (on_accept k); cbn;
+      (destruct (sd s); auto; first [apply A; exact Ht | destruct Ht as [T N]; split; [apply A; exact T|exact N]]).
+  - destruct (sp s) eqn:Esp; try discriminate. destruct (get s c) as [x|] eqn:Hg; try discriminate.
+    destruct (Nat.eqb c c0 && on_accept k && (n =? count s + 1)%Z) eqn:E; try discriminate.
+    injection H as <-. destruct ok; t_tin Ht Hm Hg.
+  - destruct (sp s) eqn:Esp; try discriminate. destruct (get s c) as [x|] eqn:Hg; try discriminate.
+    destruct (Nat.eqb c c0) eqn:E; try discriminate. apply Nat.eqb_eq in E. subst c0. injection H as <-.
+    destruct (Hsp c eq_refl) as [x1 [Hg1 Hp1]]. rewrite Hg in Hg1. injection Hg1 as <-.
+    pose proof (Forall_nthe _ _ _ _ Hf Hg) as Hx.
+    assert (Him : inmap x = false) by (destruct (inmap x) eqn:Ei; [pose proof (ci_inmap _ _ Hx Ei) as A; rewrite Hp1 in A; discriminate|reflexivity]).
+    t_tin Ht Hm Hg.
+  - brk H. injection H as <-. t_tsame Ht.
+  - brk H. injection H as <-. t_tsame Ht.
+  - destruct (sp s) eqn:Esp; try discriminate. destruct (get s c) as [x|] eqn:Hg; try discriminate.
+    destruct (Nat.eqb c c0 && negb (mu s)) eqn:E; try discriminate. apply andb_prop in E as [E E2].
+    destruct (mu s) eqn:Emu; try discriminate.
+    destruct (shut s && negb false) eqn:Esh; injection H as <-; [t_tsame Ht|t_tin Ht Hm Hg].
+  - destruct (sp s) eqn:Esp; try discriminate. destruct (get s c) as [x|] eqn:Hg; try discriminate.
+    destruct (Nat.eqb c c0) eqn:E; try discriminate. apply Nat.eqb_eq in E. subst c0. injection H as <-.
+    destruct (Hsp c eq_refl) as [x1 [Hg1 Hp1]]. rewrite Hg in Hg1. injection Hg1 as <-.
+    pose proof (Forall_nthe _ _ _ _ Hf Hg) as Hx.
+    assert (Him : inmap x = false) by (destruct (inmap x) eqn:Ei; [pose proof (ci_inmap _ _ Hx Ei) as A; rewrite Hp1 in A; discriminate|reflexivity]).
+    t_tin Ht Hm Hg.
+  - destruct (sp s) eqn:Esp; try discriminate. destruct (get s c) as [x|] eqn:Hg; try discriminate.
+    destruct (Nat.eqb c c0) eqn:E; try discriminate. injection H as <-.
+    destruct (on_close k); destruct ret; t_tin Ht Hm Hg.
+  - brk H; injection H as <-; t_tsame Ht.
+  - cs H. brk Hy; injection Hy as <-; t_tin Ht Hm Hg.
+  - cs H. brk Hy; injection Hy as <-; t_tin Ht Hm Hg.
+  - cs H. brk Hy; injection Hy as <-; t_tin Ht Hm Hg.
+  - cs H. brk Hy; injection Hy as <-; t_tin Ht Hm Hg.
+  - cs H. brk Hy; injection Hy as <-; t_tin Ht Hm Hg.
+  - cs H. brk Hy; injection Hy as <-; t_tin Ht Hm Hg.
+  - cs H. brk Hy; injection Hy as <-; t_tin Ht Hm Hg.
+  - destruct (get s c) as [x|] eqn:Hg; try discriminate. brk H; injection H as <-; t_tin Ht Hm Hg.
+  - destruct (get s c) as [x|] eqn:Hg; try discriminate. brk H; injection H as <-; t_tin Ht Hm Hg.
+  - cs H. brk Hy; injection Hy as <-; t_tin Ht Hm Hg.
+  - cs H. brk Hy; injection Hy as <-; t_tin Ht Hm Hg.
+  - destruct (mu s) eqn:Emu; try discriminate.
+    destruct (conn_step s c PExited _) as [s1|] eqn:E1; try discriminate. injection H as <-.
+    cs E1. injection Hy as <-. t_tin Ht Hm Hg.
+  - destruct (conn_step s c PUntracked _) as [s1|] eqn:E1; try discriminate.
+    cs E1. injection Hy as <-. unfold close_guard in *. cbn [v_guard_old] in *.
+    destruct (on_close k) eqn:Eoc; cbn in H; injection H as <-; t_tin Ht Hm Hg.
+  - brk H; injection H as <-; t_tsame Ht.
+  - (* LSdBegin *) destruct (sd s) eqn:Esd; try discriminate;
+      (destruct (sd_req s && negb (mu s)); try discriminate; destruct (lis_set s); injection H as <-;
+       unfold tinv; cbn; apply (tin_ids s)).
+  - (* LSdCas *)
+    destruct (sd s) eqn:Esd; try discriminate. destruct (get s c) as [x|] eqn:Hg; try discriminate.
+    destruct (mem_nat c todo && inmap x) eqn:E; try discriminate.
+    unfold tinv in *. rewrite Esd in Ht.
+    assert (A : forall y, inmap y = inmap x -> tin (put s c y) (remove_nat c todo)).
+    { intros y Hy d Hd. apply remove_nat_spec in Hd as [Hne Hd]. destruct (Ht d Hd) as [x0 [G0 I0]].
+      exists x0. split; [unfold get, put in *; cbn; rewrite nth_upd_other by congruence; exact G0|exact I0]. }
+    assert (B : ~ In c (remove_nat c todo)) by (intros Hd; apply remove_nat_spec in Hd as [Hne _]; congruence).
+    destruct (cst x) eqn:Ecst; injection H as <-; cbn; (split; [|exact B]).
+    + apply A. unfold via_set. destruct (sd_via x); reflexivity.
+    + intros d Hd. apply remove_nat_spec in Hd as [_ Hd]. exact (Ht d Hd).
+    + intros d Hd. apply remove_nat_spec in Hd as [_ Hd]. exact (Ht d Hd).
+  - (* LSdLoad *)
+    destruct (sd s) eqn:Esd; try discriminate. destruct (get s c) as [x|] eqn:Hg; try discriminate.
+    destruct (Nat.eqb c c0) eqn:E; try discriminate. apply Nat.eqb_eq in E. subst c0.
+    unfold tinv in *. rewrite Esd in Ht. destruct Ht as [Ht Hni].
+    destruct (cst x) eqn:Ecst; injection H as <-; cbn; auto.
+    split; [|exact Hni]. intros d Hd. destruct (Ht d Hd) as [x0 [G0 I0]]. exists x0. split; [|exact I0].
+    unfold get, put in *; cbn. rewrite nth_upd_other; [exact G0|]. intros ->. contradiction.
+  - (* LSdClose *)
+    destruct (sd s) eqn:Esd; try discriminate. destruct (get s c) as [x|] eqn:Hg; try discriminate.
+    destruct (Nat.eqb c c0) eqn:E; try discriminate. apply Nat.eqb_eq in E. subst c0. injection H as <-.
+    unfold tinv in *. rewrite Esd in Ht. destruct Ht as [Ht Hni]. cbn.
+    intros d Hd. destruct (Ht d Hd) as [x0 [G0 I0]]. exists x0. split; [|exact I0].
+    unfold get, put in *; cbn. rewrite nth_upd_other; [exact G0|]. intros ->. contradiction.
+  - brk H; injection H as <-; unfold tinv; cbn; exact I.
+  - brk H; injection H as <-; unfold tinv; cbn; apply (tin_ids s).
+  - brk H; injection H as <-; unfold tinv; cbn; exact I.
+  - brk H; injection H as <-; unfold tinv; cbn; exact I.
+  - brk H; injection H as <-; t_tsame Ht.
+  - brk H; injection H as <-; t_tsame Ht.
+Qed.
+
+Theorem reach_tinv k s : reach GuardNow k s -> tinv s.
+Proof.
+  induction 1 as [|s l s' R IH H]; [exact I|]. eapply tinv_step; [apply reach_inv; exact R|exact IH|exact H].
+Qed.
+
+(* ---------- progress of Shutdown ---------- *)
+Definition quiet (s : state) : Prop := forall c x, get s c = Some x -> cst x <> CHandling.
+Definition is_sd (l : label) : bool := match label_gor l with GShutdown => true | _ => false end.
+
+Lemma run_app v k : forall l1 l2 s, run v k s (l1 ++ l2) = match run v k s l1 with Some s1 => run v k s1 l2 | None => None end.
+Proof. induction l1 as [|l t IH]; intros l2 s; cbn; [reflexivity|]. destruct (step v k s l); [apply IH|reflexivity]. Qed.
+
+Lemma st_cas_idle k s t ai c x : crashed s = false -> sd s = SdPass t ai -> get s c = Some x -> In c t -> inmap x = true ->
+  cst x = CIdle ->
+  step GuardNow k s (LSdCas c) = Some (s_sd (SdClosing c (remove_nat c t) ai) (put s c (c_cst CClosed (via_set ViaCas x)))).
+Proof. intros A B C D E F. unfold step. rewrite A, B, C, (mem_nat_in _ _ D), E, F. reflexivity. Qed.
+Lemma st_cas_closed k s t ai c x : crashed s = false -> sd s = SdPass t ai -> get s c = Some x -> In c t -> inmap x = true ->
+  cst x = CClosed -> step GuardNow k s (LSdCas c) = Some (s_sd (SdFailed c (remove_nat c t) ai) s).
+Proof. intros A B C D E F. unfold step. rewrite A, B, C, (mem_nat_in _ _ D), E, F. reflexivity. Qed.
+Lemma st_load_closed k s t ai c x : crashed s = false -> sd s = SdFailed c t ai -> get s c = Some x -> cst x = CClosed ->
+  step GuardNow k s (LSdLoad c) = Some (s_sd (SdClosing c t ai) (put s c (via_set ViaLoadClosed x))).
+Proof. intros A B C F. unfold step. rewrite A, B, C, Nat.eqb_refl, F. reflexivity. Qed.
+Lemma st_load_idle k s t ai c x : crashed s = false -> sd s = SdFailed c t ai -> get s c = Some x -> cst x = CIdle ->
+  step GuardNow k s (LSdLoad c) = Some (s_sd (SdPass t false) s).
+Proof. intros A B C F. unfold step. rewrite A, B, C, Nat.eqb_refl, F. reflexivity. Qed.
+Lemma st_close k s t ai c x : crashed s = false -> sd s = SdClosing c t ai -> get s c = Some x ->
+  step GuardNow k s (LSdClose c) = Some (s_sd (SdPass t ai) (put s c (c_sock false (c_inmap false x)))).
+Proof. intros A B C. unfold step. rewrite A, B, C, Nat.eqb_refl. reflexivity. Qed.
+
+Lemma get_sd_put_same v s c x y : get s c = Some x -> get (s_sd v (put s c y)) c = Some y.
+Proof. intros G. unfold get, put in *. cbn. eapply nth_upd_same. exact G. Qed.
+Lemma get_sd_put_other v s c d y : c <> d -> get (s_sd v (put s c y)) d = get s d.
+Proof. intros N. unfold get, put. cbn. apply nth_upd_other. exact N. Qed.
+
+(* the bundle of facts carried through Shutdown's own steps *)
+Definition keeps (s s' : state) : Prop := crashed s' = false /\ sd_err s' = sd_err s.
+
+(* closing connection c, for which the swap or the load has already decided *)
+Lemma closing_step k s t ai c x : crashed s = false -> sd s = SdClosing c t ai -> get s c = Some x -> quiet s ->
+  exists s', step GuardNow k s (LSdClose c) = Some s' /\ sd s' = SdPass t ai /\ keeps s s' /\ quiet s' /\
+             (forall d, d <> c -> get s' d = get s d).
+Proof.
+  intros A B G Q. eexists. split; [apply (st_close k s t ai c x A B G)|]. split; [reflexivity|]. split; [split; [exact A|reflexivity]|]. split.
+  - intros d y Gd. destruct (Nat.eq_dec c d) as [<-|N].
+    + rewrite (get_sd_put_same _ _ _ _ _ G) in Gd. injection Gd as <-. apply (Q c x G).
+    + rewrite get_sd_put_other in Gd by exact N. apply (Q d y Gd).
+  - intros d N. apply get_sd_put_other. congruence.
+Qed.
+
+Lemma visit_one k s t ai c x : crashed s = false -> sd s = SdPass t ai -> In c t -> get s c = Some x -> inmap x = true ->
+  quiet s ->
+  exists ls s', run GuardNow k s ls = Some s' /\ forallb is_sd ls = true /\ sd s' = SdPass (remove_nat c t) ai /\ keeps s s' /\
+                quiet s' /\ (forall d, d <> c -> get s' d = get s d).
+Proof.
+  intros A B Hin G I Q. destruct (cst x) eqn:Ec; [|elim (Q c x G Ec)|].
+  - (* idle: the swap succeeds *)
+    set (y := c_cst CClosed (via_set ViaCas x)). set (s1 := s_sd (SdClosing c (remove_nat c t) ai) (put s c y)).
+    assert (G1 : get s1 c = Some y) by (apply (get_sd_put_same _ _ _ _ _ G)).
+    assert (Q1 : quiet s1).
+    { intros d z Gd. destruct (Nat.eq_dec c d) as [<-|N].
+      - rewrite G1 in Gd. injection Gd as <-. unfold y, via_set. destruct (sd_via x); discriminate.
+      - unfold s1 in Gd. rewrite get_sd_put_other in Gd by exact N. apply (Q d z Gd). }
+    destruct (closing_step k s1 (remove_nat c t) ai c y A eq_refl G1 Q1) as [s2 [S2 [D2 [[K1 K2] [Q2 O2]]]]].
+    exists [LSdCas c; LSdClose c], s2. split.
+    + cbn [run]. rewrite (st_cas_idle k s t ai c x A B G Hin I Ec). fold y. fold s1. rewrite S2. reflexivity.
+    + split; [reflexivity|]. split; [exact D2|]. split; [split; [exact K1|rewrite K2; reflexivity]|]. split; [exact Q2|].
+      intros d N. rewrite (O2 d N). unfold s1. apply get_sd_put_other. congruence.
+  - (* closed: the swap fails, the load sees closed *)
+    set (s1 := s_sd (SdFailed c (remove_nat c t) ai) s).
+    set (y := via_set ViaLoadClosed x). set (s2 := s_sd (SdClosing c (remove_nat c t) ai) (put s1 c y)).
+    assert (G1 : get s1 c = Some x) by exact G.
+    assert (G2 : get s2 c = Some y) by (apply (get_sd_put_same _ _ _ _ _ G1)).
+    assert (Q2 : quiet s2).
+    { intros d z Gd. destruct (Nat.eq_dec c d) as [<-|N].
+      - rewrite G2 in Gd. injection Gd as <-. unfold y, via_set. destruct (sd_via x); cbn; rewrite Ec; discriminate.
+      - unfold s2 in Gd. rewrite get_sd_put_other in Gd by exact N. apply (Q d z Gd). }
+    destruct (closing_step k s2 (remove_nat c t) ai c y A eq_refl G2 Q2) as [s3 [S3 [D3 [[K1 K2] [Q3 O3]]]]].
+    exists [LSdCas c; LSdLoad c; LSdClose c], s3. split.
+    + cbn [run]. rewrite (st_cas_closed k s t ai c x A B G Hin I Ec). fold s1.
+      rewrite (st_load_closed k s1 (remove_nat c t) ai c x A eq_refl G1 Ec). fold y. fold s2. rewrite S3. reflexivity.
+    + split; [reflexivity|]. split; [exact D3|]. split; [split; [exact K1|rewrite K2; reflexivity]|]. split; [exact Q3|].
+      intros d N. rewrite (O3 d N). unfold s2. rewrite get_sd_put_other by congruence. reflexivity.
+Qed.
+
+Lemma remove_nat_length c t : length (remove_nat c t) <= length t.
+Proof. induction t as [|h t IH]; cbn; [lia|]. destruct (Nat.eqb c h); cbn; lia. Qed.
+
+Lemma visit_all k : forall n t s ai, length t <= n -> crashed s = false -> sd s = SdPass t ai -> tin s t -> quiet s ->
+  exists ls s', run GuardNow k s ls = Some s' /\ forallb is_sd ls = true /\ sd s' = SdPass [] ai /\ keeps s s' /\ quiet s'.
+Proof.
+  induction n as [|n IH]; intros t s ai L A B T Q.
+  - destruct t; [|cbn in L; lia]. exists [], s. cbn. repeat split; auto.
+  - destruct t as [|c t0]; [exists [], s; cbn; repeat split; auto|].
+    destruct (T c (or_introl eq_refl)) as [x [G I]].
+    destruct (visit_one k s (c :: t0) ai c x A B (or_introl eq_refl) G I Q) as [l1 [s1 [R1 [F1 [D1 [[K1 K2] [Q1 O1]]]]]]].
+    assert (L1 : length (remove_nat c (c :: t0)) <= n).
+    { cbn. rewrite Nat.eqb_refl. pose proof (remove_nat_length c t0). cbn in L. lia. }
+    assert (T1 : tin s1 (remove_nat c (c :: t0))).
+    { intros d Hd. apply remove_nat_spec in Hd as [N Hd]. destruct (T d Hd) as [z [Gz Iz]]. exists z. split; [rewrite (O1 d N); exact Gz|exact Iz]. }
+    destruct (IH _ s1 ai L1 K1 D1 T1 Q1) as [l2 [s2 [R2 [F2 [D2 [[K3 K4] Q2]]]]]].
+    exists (l1 ++ l2), s2. split; [rewrite run_app, R1; exact R2|]. split; [rewrite forallb_app, F1, F2; reflexivity|].
+    split; [exact D2|]. split; [split; [exact K3|rewrite K4; exact K2]|exact Q2].
+Qed.
+
+Lemma from_pass k s t ai : crashed s = false -> sd s = SdPass t ai -> tin s t -> quiet s ->
+  exists ls s', run GuardNow k s ls = Some s' /\ forallb is_sd ls = true /\
+                sd s' = SdReturned (if sd_err s then EOther else ENil) /\ mu s' = false.
+Proof.
+  intros A B T Q.
+  destruct (visit_all k (length t) t s ai (le_n _) A B T Q) as [l1 [s1 [R1 [F1 [D1 [[K1 K2] Q1]]]]]].
+  destruct ai.
+  - exists (l1 ++ [LSdReturn]). eexists. split; [rewrite run_app, R1; cbn [run]; unfold step; rewrite K1, D1; reflexivity|].
+    split; [rewrite forallb_app, F1; reflexivity|]. cbn. rewrite K2. split; reflexivity.
+  - set (s2 := s_sd (SdPass (inmap_ids (conns (s_sd SdWait s1)) 0) true) (s_sd SdWait s1)).
+    assert (Q2 : quiet s2) by exact Q1.
+    destruct (visit_all k _ (inmap_ids (conns (s_sd SdWait s1)) 0) s2 true (le_n _) K1 eq_refl (tin_ids s2) Q2) as [l3 [s3 [R3 [F3 [D3 [[K3 K4] Q3]]]]]].
+    unfold s2 in R3.
+    exists (l1 ++ [LSdPassEnd; LSdRetry] ++ l3 ++ [LSdReturn]). eexists. split.
+    + rewrite run_app, R1. rewrite run_app. cbn [run]. unfold step at 1. rewrite K1, D1.
+      unfold step at 1. cbn [crashed s_sd sd]. rewrite K1. rewrite run_app, R3. cbn [run]. unfold step. rewrite K3, D3. reflexivity.
+    + split; [rewrite !forallb_app, F1, F3; reflexivity|]. cbn. rewrite K4. cbn. rewrite K2. split; reflexivity.
+Qed.
+
+(* From every reachable state in which Shutdown is in progress and no connection is in state
+   `handling`, Shutdown returns (nil, unless closing the listener had failed) by its OWN steps alone:
+   no step of any other goroutine is needed, in particular none that needs the mutex Shutdown holds. *)
+Theorem shutdown_progress k s : reach GuardNow k s -> sd_busy (sd s) = true -> quiet s ->
+  exists ls s', run GuardNow k s ls = Some s' /\ forallb is_sd ls = true /\
+                sd s' = SdReturned (if sd_err s then EOther else ENil) /\ mu s' = false.
+Proof.
+  intros R Hb Q. pose proof (reach_inv _ _ R) as [Hc Hn Hf Hm Hcl Hfl Hsp Hspd]. pose proof (reach_tinv _ _ R) as T.
+  unfold tinv in T. destruct (sd s) as [|t ai|c t ai|c t ai| |e] eqn:Esd; try discriminate.
+  - apply (from_pass k s t ai Hc Esd T Q).
+  - destruct T as [T N]. destruct (Hfl c t ai eq_refl) as [x [G I]].
+    destruct (cst x) eqn:Ec; [|elim (Q c x G Ec)|].
+    + set (s1 := s_sd (SdPass t false) s).
+      destruct (from_pass k s1 t false Hc eq_refl T Q) as [l [s' [R1 [F1 [D1 M1]]]]].
+      exists (LSdLoad c :: l), s'. split; [cbn [run]; rewrite (st_load_idle k s t ai c x Hc Esd G Ec); exact R1|].
+      split; [cbn; exact F1|split; [exact D1|exact M1]].
+    + set (y := via_set ViaLoadClosed x). set (s1 := s_sd (SdClosing c t ai) (put s c y)).
+      assert (G1 : get s1 c = Some y) by (apply (get_sd_put_same _ _ _ _ _ G)).
+      assert (Q1 : quiet s1).
+      { intros d z Gd. destruct (Nat.eq_dec c d) as [<-|Nd].
+        - rewrite G1 in Gd. injection Gd as <-. unfold y, via_set. destruct (sd_via x); cbn; rewrite Ec; discriminate.
+        - unfold s1 in Gd. rewrite get_sd_put_other in Gd by exact Nd. apply (Q d z Gd). }
+      destruct (closing_step k s1 t ai c y Hc eq_refl G1 Q1) as [s2 [S2 [D2 [[K1 K2] [Q2 O2]]]]].
+      assert (T2 : tin s2 t).
+      { intros d Hd. destruct (T d Hd) as [z [Gz Iz]]. exists z. split; [|exact Iz].
+        assert (Nd : d <> c) by (intros ->; contradiction). rewrite (O2 d Nd). unfold s1. rewrite get_sd_put_other by congruence. exact Gz. }
+      destruct (from_pass k s2 t ai K1 D2 T2 Q2) as [l [s' [R1 [F1 [D1 M1]]]]].
+      exists (LSdLoad c :: LSdClose c :: l), s'. split.
+      * cbn [run]. rewrite (st_load_closed k s t ai c x Hc Esd G Ec). fold y. fold s1. rewrite S2. exact R1.
+      * split; [cbn; exact F1|]. split; [rewrite D1, K2; reflexivity|exact M1].
+  - destruct T as [T N]. destruct (Hcl c t ai eq_refl) as [x [G [V I]]].
+    destruct (closing_step k s t ai c x Hc Esd G Q) as [s2 [S2 [D2 [[K1 K2] [Q2 O2]]]]].
+    assert (T2 : tin s2 t).
+    { intros d Hd. destruct (T d Hd) as [z [Gz Iz]]. exists z. split; [|exact Iz].
+      assert (Nd : d <> c) by (intros ->; contradiction). rewrite (O2 d Nd). exact Gz. }
+    destruct (from_pass k s2 t ai K1 D2 T2 Q2) as [l [s' [R1 [F1 [D1 M1]]]]].
+    exists (LSdClose c :: l), s'. split; [cbn [run]; rewrite S2; exact R1|].
+    split; [cbn; exact F1|]. split; [rewrite D1, K2; reflexivity|exact M1].
+  - set (s1 := s_sd (SdPass (inmap_ids (conns s) 0) true) s).
+    destruct (from_pass k s1 _ true Hc eq_refl (tin_ids s) Q) as [l [s' [R1 [F1 [D1 M1]]]]].
+    exists (LSdRetry :: l), s'. split; [cbn [run]; unfold step; rewrite Hc, Esd; exact R1|].
+    split; [cbn; exact F1|split; [exact D1|exact M1]].
+Qed.
+
+(* a connection whose exchange has ended abnormally (handler panicked, reply write failed) leaves state
+   `handling` by at most two steps of its own goroutine, neither of which needs the mutex: the store of
+   `closed` is handle()'s own deferred action, before trackConn(c,false) *)
+Theorem ended_exchange_leaves_handling k s c x : reach GuardNow k s -> get s c = Some x -> cst x = CHandling ->
+  handling_ph (ph x) = false ->
+  exists ls s' x', run GuardNow k s ls = Some s' /\ Forall (fun l => l = LErrCb c \/ l = LConnLeave c) ls /\
+                   get s' c = Some x' /\ cst x' = CClosed /\ sd s' = sd s /\ mu s' = mu s /\
+                   (forall d, d <> c -> get s' d = get s d).
+Proof.
+  intros R G Ec Hh. pose proof (reach_inv _ _ R) as [Hc Hn Hf Hm Hcl Hfl Hsp Hspd].
+  destruct (ci_handconv _ _ (Forall_nthe _ _ _ _ Hf G) Ec) as [A|P]; [congruence|].
+  assert (L : forall s0 y, crashed s0 = false -> get s0 c = Some y -> pend_err y = false -> ph y = PLeaving ->
+              step GuardNow k s0 (LConnLeave c) = Some (put s0 c (c_ph PExiting (c_cst CClosed (c_pend (panicked y) y))))).
+  { intros s0 y A B C D. unfold step. rewrite A. unfold conn_step. rewrite B, C, D. reflexivity. }
+  destruct (pend_err x) eqn:Ep.
+  - set (y := c_pend false x). set (s1 := s_errs (if on_error k then S (errs s) else errs s) (put s c y)).
+    assert (G1 : get s1 c = Some y) by (unfold s1, get, put in *; cbn; eapply nth_upd_same; exact G).
+    exists [LErrCb c; LConnLeave c]. eexists. eexists. split.
+    + cbn [run]. unfold step at 1. rewrite Hc, G, Ep. fold y. fold s1.
+      assert (C1 : crashed s1 = false) by exact Hc.
+      assert (P1 : pend_err y = false) by (unfold y; crec x; reflexivity).
+      assert (P2 : ph y = PLeaving) by (unfold y; crec x; cbn in *; exact P).
+      rewrite (L s1 y C1 G1 P1 P2). reflexivity.
+    + split; [constructor; [left; reflexivity|constructor; [right; reflexivity|constructor]]|]. split; [unfold get, put in *; cbn; eapply nth_upd_same; exact G1|].
+      split; [reflexivity|]. split; [reflexivity|]. split; [reflexivity|].
+      intros d N. unfold s1, get, put. cbn. rewrite !nth_upd_other by congruence. reflexivity.
+  - exists [LConnLeave c]. eexists. eexists. split; [cbn [run]; rewrite (L s x Hc G Ep P); reflexivity|].
+    split; [constructor; [right; reflexivity|constructor]|]. split; [unfold get, put in *; cbn; eapply nth_upd_same; exact G|].
+    split; [reflexivity|]. split; [reflexivity|]. split; [reflexivity|].
+    intros d N. unfold get, put. cbn. rewrite nth_upd_other by congruence. reflexivity.
+Qed.
